@@ -992,6 +992,25 @@ Section Spec.
       pose proof I as (R & P & L & W & O). pose proof I' as (R' & P' & L' & W' & O').
       split; [destruct SS as (A & B & D); repeat split; simpl; auto|].
       split; [apply (inv_cache_only w)|apply (inv_cache_only w')]; auto; apply flood_lru_valid; assumption.
+    - (* Aug *) rewrite (slot_static w w' s SS) in H'. destruct (slot w s) as [p|] eqn:SP;
+        [|inversion H; inversion H'; subst; auto].
+      rewrite FK in H'. destruct (okind (get_obj w p) =? 1); [|inversion H; inversion H'; subst; auto].
+      rewrite (contents_static w w' p SS) in H'.
+      destruct (same_static_fields w w' p SS) as (_ & _ & _ & F4 & _). rewrite F4 in H'.
+      destruct (pf (20 + sgn) 0 [(false, contents w (get_obj w p)); (false, d)]) as [v|];
+        [|inversion H; inversion H'; subst; auto].
+      inversion H; inversion H'; subst. split; [reflexivity|].
+      pose proof (same_static_len _ _ SS) as LEN.
+      assert (WO : forall y, oother (get_obj w p) = Some y -> (y < length (objs w))%nat)
+        by (intros y Hy; apply (get_obj_other_wf w p y I Hy)).
+      unfold aug_obj. split.
+      + destruct (new_obj_static w w' s 1 v SS) as (A & B & D).
+        split; [exact A|]. split; [|exact D].
+        unfold upd_obj. cbn [objs set_objs]. rewrite !map_clear_upd, LEN, B. reflexivity.
+      + split; apply setother_inv; try (apply new_obj_inv; assumption);
+          intros y Hy; unfold new_obj; simpl; rewrite app_length; simpl.
+        * specialize (WO y Hy). lia.
+        * rewrite LEN. specialize (WO y Hy). lia.
   Qed.
 
   Lemma inv_empty : inv empty_world.
